@@ -106,6 +106,16 @@ func c14Ops() []c14Op {
 		{name: "MergeMap(->src)", chain: func(s ro.Observable[int]) ro.Observable[int] {
 			return ro.MergeMap(func(int) ro.Observable[int] { return s })(ro.Just(0))
 		}},
+		// higher-order operators over a HOT outer source whose inner observables emit one value while they
+		// are being subscribed and then stay open: the downstream can end inside the inner Subscribe call
+		{name: "ConcatAll(src->open inner)", chain: func(s ro.Observable[int]) ro.Observable[int] {
+			return ro.ConcatAll[int]()(ro.Map(openInner)(s))
+		}},
+		{name: "FlatMap(src->open inner)", chain: func(s ro.Observable[int]) ro.Observable[int] { return ro.FlatMap(openInner)(s) }},
+		{name: "MergeMap(src->open inner)", chain: func(s ro.Observable[int]) ro.Observable[int] { return ro.MergeMap(openInner)(s) }},
+		{name: "MergeAll(src->open inner)", chain: func(s ro.Observable[int]) ro.Observable[int] {
+			return ro.MergeAll[int]()(ro.Map(openInner)(s))
+		}},
 		// a sibling source that completes, on its own goroutine, as soon as it has been subscribed: the
 		// operator is then still busy subscribing the never-ending source
 		{name: "Merge(completing sibling,src)", chain: func(s ro.Observable[int]) ro.Observable[int] { return ro.Merge(completingSibling(), s) }},
@@ -155,6 +165,34 @@ func c14Ops() []c14Op {
 	return append(ops, extra...)
 }
 
+// c14Inners: the inner sources created during the current execution (one execution at a time per worker).
+var c14Inners []*h.Src
+
+//go:norace
+func c14AddInner(sc *h.Src) { c14Inners = append(c14Inners, sc) }
+
+//go:norace
+func c14ResetInners() { c14Inners = nil }
+
+//go:norace
+func c14InnersLive() (live int, desc string) {
+	var d []string
+	for _, sc := range c14Inners {
+		n, t, l, _ := sc.Get()
+		live += l
+		d = append(d, fmt.Sprintf("%s: subscribed %d, released %d", sc.Name, n, t))
+	}
+	return live, strings.Join(d, "; ")
+}
+
+// openInner is an inner observable that emits v synchronously while it is being subscribed and then stays
+// open for ever (what a BehaviorSubject or a replaying source does).
+func openInner(v int) ro.Observable[int] {
+	sc := h.NewSrc(fmt.Sprint("inner", v))
+	c14AddInner(sc)
+	return h.Script[int](sc, h.Unsafe, []h.Ev{h.Nx(v)})
+}
+
 // completingSibling is a hot source with a producer goroutine that emits 0 and completes right after the
 // source has been subscribed.
 func completingSibling() ro.Observable[int] {
@@ -185,10 +223,12 @@ func c14CaseRacing(op c14Op, tm terminator, n int, race bool) fw.Case {
 		src := h.NewSrc("src")
 		env := &c14env{}
 		var lenBefore, lenAfter int
-		var liveAtQuiescence, tearsAtQ, subsAtQ int
+		var liveAtQuiescence, tearsAtQ, subsAtQ, innerLiveAtQ int
+		var innerDesc string
 		var returnedAtQ, terminatedAtQ bool
 		fired := false
 		body := func() {
+			c14ResetInners()
 			o, push := h.Pushed[int](src, h.Unsafe)
 			pipeline := tm.wrap(op.chain(o), n, env)
 			if race {
@@ -221,6 +261,7 @@ func c14CaseRacing(op c14Op, tm terminator, n int, race bool) fw.Case {
 			vrt.HSleep(int64(u))
 			vrt.Settle()
 			subsAtQ, tearsAtQ, liveAtQuiescence, _ = src.Get()
+			innerLiveAtQ, innerDesc = c14InnersLive()
 			_, returnedAtQ = env.returned()
 			lenBefore = rec.Len()
 			terminatedAtQ = hasTerminal(rec.Events()) || tm.name == "Unsubscribe"
@@ -250,6 +291,9 @@ func c14CaseRacing(op c14Op, tm terminator, n int, race bool) fw.Case {
 			}
 			if liveAtQuiescence != 0 || tearsAtQ != subsAtQ {
 				out = append(out, fw.V(sig+"/source-not-released/"+tmClass(tm), fmt.Sprintf("%s: downstream ended (trace [%s]) but the source is still subscribed (subscribed %d, torn down %d) without having been asked to emit again", where, rec.Trace(), subsAtQ, tearsAtQ)))
+			}
+			if innerLiveAtQ != 0 {
+				out = append(out, fw.V(sig+"/inner-source-not-released/"+tmClass(tm), fmt.Sprintf("%s: downstream ended (trace [%s]) but %d inner source(s) are still subscribed (%s)", where, rec.Trace(), innerLiveAtQ, innerDesc)))
 			}
 			if !returnedAtQ {
 				out = append(out, fw.V(sig+"/subscribe-still-running/"+tmClass(tm), fmt.Sprintf("%s: downstream ended (trace [%s]) but the Subscribe call has not returned", where, rec.Trace())))
